@@ -40,6 +40,52 @@ def count_allocs(exe, programs):
     return [res.get(i, 0) for i in range(len(cases))]
 
 
+def url_part(tier, seed, v):
+    """UNIT support: URL parse/sprintf/clone with the k-th allocation failing (k = 1..6) for URLs from the
+    C19 generator: every call returns 0 or NNG_ENOMEM, nothing is leaked, no free with a wrong size."""
+    import re
+    try:
+        from . import c19
+        exe = build.harness("u_urlfail", ["u_urlfail.c", "valloc.c"])
+    except Exception as e:  # generator or harness missing: nothing to add
+        return {"skipped": str(e)[:200]}
+    n = 150 if tier == "quick" else 3000
+    urls = []
+    r = core.Rng(seed, PROP, tier, "urls")
+    base = ["http://example.com/a/b?q#f", "tcp://127.0.0.1:5555", "ipc:///tmp/x", "inproc://name", "ws://[::1]:80/p", "tls+tcp://h:1/"]
+    for i in range(n):
+        u = r.choice(base)
+        if r.chance(1, 3):
+            u += "/" + "a" * r.range(100, 400)      # beyond the 128-byte inline buffer
+        if r.chance(1, 4):
+            u += "%41%7e/../x//y"
+        urls.append(u)
+    lines = []
+    for u in urls:
+        for k in range(0, 7):   # k = 0: no failure (the baseline result for this URL)
+            lines.append(f"urlfail {k} {u.encode().hex()}")
+    res = core.run_stream([exe], "\n".join(lines) + "\n", env=build.env(), timeout=600)
+    bad = []
+    base = None
+    for l, o in zip(lines, res.lines):
+        m = re.match(r"p=(\d+)(?: c=(\d+))? live=(\d+) badfree=(\d+) allocs=(\d+) \$", o)
+        if m and l.split()[1] == "0":
+            base = (int(m.group(1)), int(m.group(2)) if m.group(2) else None)
+        # with a failure injected every call returns what it returns without one, or NNG_ENOMEM
+        if not m or int(m.group(1)) not in (base[0] if base else 0, 2) or \
+                (m.group(2) and int(m.group(2)) not in (base[1] if base and base[1] is not None else 0, 2)) or \
+                int(m.group(3)) != 0 or int(m.group(4)) != 0:
+            bad.append((l, o))
+    if res.rc != 0 or len(res.lines) != len(lines):
+        k = len(res.lines)
+        v.violation("url-crash", {"kind": "crash / sanitizer report in URL handling after an injected allocation failure",
+                                  "ops": [lines[k] if k < len(lines) else lines[-1]], "rc": res.rc, "stderr": res.err[-2500:]})
+    for l, o in bad[:3]:
+        v.violation(f"url-{abs(hash(l)) % 10000}", {"kind": "URL handling after an injected allocation failure: result is not 0/NNG_ENOMEM, or memory leaked / freed with a wrong size",
+                                                     "ops": [l], "impl": o})
+    return {"cases": len(lines), "bad": len(bad), "enomem": sum(1 for o in res.lines if "p=2" in o or "c=2" in o)}
+
+
 def run(tier, seed, replay=None):
     t0 = time.time()
     v = core.Verdict(PROP, seed)
@@ -87,6 +133,8 @@ def run(tier, seed, replay=None):
         impl, il, verdicts = sim.run_one(exe, "own-judge", ops, True)
         v.violation(f"judge-{jv['case']}", {"kind": "after an injected allocation failure the trace violates the ownership / balance predicate",
                     "clause": jv["clause"], "ops": ops, "impl": il, "judge": verdicts})
+    urlcov = url_part(tier, seed, v) if not replay else {}
+    core.log(PROP, f"URL allocation-failure cases: {urlcov}")
     if not v.violations and not st.ok:
         v.violation("proof", {"kind": "proof obligation no longer checks", "broken": st.broken, "log": st.log[-3000:]}, no_input=True)
     cov = {"obligations": len(st.theorems), "discharged": len(st.discharged),
@@ -99,7 +147,7 @@ def run(tier, seed, replay=None):
                    "allocations is measured, then the k-th allocation is failed for " + ("a sample of k (1,2,3,N and 16 random)" if tier == "quick" else "every k in 1..N") +
                    "; each run ends with close + nng_fini and the allocator balance; distinct = distinct (program,k) pairs",
            "programs": len(programs), "allocation_points_total": sum(counts), "ops": res.ops, "event_histogram": res.ev_hist,
-           "samples": [cases[0], cases[-1]] if cases else [], "judge_violations": len(res.judge_viol), "crashes": len(res.crashes)}
+           "samples": [cases[0], cases[-1]] if cases else [], "judge_violations": len(res.judge_viol), "crashes": len(res.crashes), "url_unit_part": urlcov}
     core.write_evidence(PROP, tier, seed, "proof", cov,
                         ["single allocation failure per run", "allocation order is deterministic under the simulated platform with a fixed schedule seed",
                          "only allocations through nni_alloc/nni_zalloc are injectable (not libc internals)"], time.time() - t0, len(v.violations))
